@@ -54,6 +54,10 @@ def step (s : S) (line : String) : S × String :=
       match argNat? ws "s" with
       | some sd => if sd = 0 then (s, "bad-op") else ({ s with r64 := some (Rng64.create (UInt64.ofNat sd)) }, "ok")
       | none => (s, "bad-op")
+    else if op == "poke64" then
+      match s.r64 with
+      | some r => ({ s with r64 := some (r.pokeRaw (UInt64.ofNat ((argNat? ws "raw").getD 0))) }, "ok")
+      | none => (s, "bad-op")
     else if op == "peek64" then
       match s.r64 with
       | some r => let (x, r') := r.next; ({ s with r64 := some r' }, s!"ok {x}")
